@@ -519,7 +519,6 @@ def explore(tier, seed, rng, wd):
             insts.append({"id": len(insts), "u": ui, "rep": r})
     by_id = {i["id"]: i for i in insts}
     periods = H.gen_periods(rng, 4 if tier == "quick" else 12)
-    files = H.write_harness(wd, units, insts, periods)
     certs = {r: kv(a) for r, a in zip(H.REPS, drv.ask([f"c19 cert {r}" for r in H.REPS]))}
 
     # configurations: g++ c++14 (ASan+UBSan) carries the full instance set; "exact" = clang++-14 with the exact-count
@@ -565,13 +564,24 @@ def explore(tier, seed, rng, wd):
             sub = [i for i in insts if is_directed(units[i["u"]]) or (i["u"] + H.REPS.index(i["rep"]) + seed) % stride == 0]
         cwd = os.path.join(wd, tag)
         os.makedirs(cwd, exist_ok=True)
-        cfiles = files if stride == 1 else H.write_harness(cwd, units, sub, periods, nchunks=(3 if stride == 0 else 8))
         tb = time.time()
-        exe, err = build_harness(cwd if stride != 1 else wd, cfiles, compiler, std, tag, opt, san=(stride != 0))
-        return tag, sub, exe, err, round(time.time() - tb, 1)
+        # first the trait matrix (always compiles): which (target type, context) accept ZERO under this configuration;
+        # the value harness is generated from the fully accepted targets only, the others are judged from the matrix
+        rows, merr = conv_matrix(cwd, compiler, std, periods)
+        at, dt = accepted_targets(rows, periods) if rows is not None else (None, None)
+        cfiles = H.write_harness(cwd, units, sub, periods, nchunks=(16 if stride == 1 else 3 if stride == 0 else 8),
+                                 arith_types=at, dur_targets=dt)
+        exe, err = build_harness(cwd, cfiles, compiler, std, tag, opt, san=(stride != 0))
+        return tag, sub, exe, err, round(time.time() - tb, 1), rows, merr
     built = pmap(prepare, configs, workers=len(configs))
-    for ci, ((compiler, std, stride, opt), (tag, sub, exe, err, tcomp)) in enumerate(zip(configs, built)):
+    for ci, ((compiler, std, stride, opt), (tag, sub, exe, err, tcomp, rows, merr)) in enumerate(zip(configs, built)):
         cfg = f"{compiler} -std={std}"
+        if rows is None:
+            violations.append({"what": f"the ZERO-conversion trait matrix does not compile under {cfg}", "class": "matrix-build",
+                               "no_input": True, "broken": "harness: SFINAE trait matrix", "rec": {"kind": "build", "config": cfg},
+                               "detail": merr})
+        else:
+            check_matrix(rows, drv, cfg, violations, stats)
         light = stride == 0
         exact = compiler == "exact"
         stats["timing"]["compile_" + tag] = tcomp
@@ -887,6 +897,62 @@ def check_pair(ins, units, cfg, x, a, violations, vrec):
                            "rec": vrec(ins, cfg, kind="pair", a=aa, b=bb, model=ma, impl=a)})
 
 
+def conv_matrix(cwd, compiler, std, periods):
+    """Compile and run the SFINAE trait matrix. Returns (rows, None) or (None, compiler output)."""
+    src, exe = os.path.join(cwd, "matrix.cc"), os.path.join(cwd, "matrix")
+    H.write_matrix(src, periods)
+    rc, out = cxx(src, exe, compiler=compiler, std=std, opt="-O0", san=False, timeout=WALL_BACKSTOP)
+    if rc != 0:
+        return None, out[-3000:]
+    rc, o, e = run([exe], timeout=WALL_BACKSTOP)
+    rows = [l for l in o.split("\n") if l.startswith("M ")]
+    if rc != 0 or len(rows) != len(H.ARITH_TYPES) + len(H.DUR_REPS) * len(periods):
+        return None, f"rc={rc}, {len(rows)} rows\n{e[-2000:]}"
+    return rows, None
+
+
+def accepted_targets(rows, periods):
+    """Targets for which every context accepts ZERO, in the generator's own spelling."""
+    ok = [all(kv(l)[c] == "1" for c in H.MATRIX_CONTEXTS) for l in rows]
+    na = len(H.ARITH_TYPES)
+    at = [t for t, k in zip(H.ARITH_TYPES, ok[:na]) if k]
+    allt = [(r, n, d) for r in H.DUR_REPS for (n, d) in periods]
+    dt = [t for t, k in zip(allt, ok[na:]) if k]
+    return at, dt
+
+
+def check_matrix(rows, drv, cfg, violations, stats):
+    """Every (target type, context) must accept ZERO: the statement says so ('converts to 0 of every arithmetic type and every
+    chrono duration'), and so does the model (convertZero never rejects an arithmetic or duration target)."""
+    req = []
+    for l in rows:
+        f, d = l.split(), kv(l)
+        fk, bits, sg = int(d["fkind"]), int(d["bits"]), d["signed"] == "1"
+        rp = {1: "f32", 2: "f64", 3: "f80"}[fk] if fk else (("i" if sg else "u") + str(8 if bits == 1 else bits))
+        req.append(f"c19 conv arith {rp}" if f[1] == "arith" else f"c19 conv dur {rp} {d['pnum']} {d['pden']}")
+    for l, rq, ma in zip(rows, req, drv.ask(req)):
+        f, d = l.split(), kv(l)
+        stats["matrix_cells"] = stats.get("matrix_cells", 0) + len(H.MATRIX_CONTEXTS)
+        target = f[2].replace("_", " ") if f[1] == "arith" else f"std::chrono::duration<{f[2].replace('_', ' ')}, std::ratio<{d['num']}, {d['den']}>>"
+        if f[1] == "arith" and d["arithmetic"] != "1":
+            violations.append({"what": f"harness type list: {target} is not an arithmetic type", "class": "matrix-list", "no_input": True,
+                               "broken": "harness", "rec": {"kind": "conv", "target": target, "config": cfg}})
+            continue
+        for c in H.MATRIX_CONTEXTS:
+            if d[c] == "1":
+                continue
+            stats["matrix_rejected"] = stats.get("matrix_rejected", 0) + 1
+            rec = {"kind": "convctx", "target": target, "context": c, "config": cfg, "impl": l, "model": ma, "request": rq,
+                   "observable": "accepted", "expected": "accepted", "actual": "rejected"}
+            # oracle: the statement; concrete input = (type, context)
+            violations.append({"what": f"ZERO does not convert to {target} in context {c} ({cfg}): the conversion is rejected "
+                                       f"(SFINAE probe), the statement and the model ({ma}) require it to give 0",
+                               "class": f"oracle-convctx-{f[2]}-{c}", "rec": rec})
+        if not ma.startswith("ok "):
+            violations.append({"what": f"model rejects ZERO -> {target}", "class": "corr-matrix", "no_input": True,
+                               "broken": "correspondence: convertZero", "rec": {"kind": "conv", "target": target, "model": ma}})
+
+
 def check_conv(al, drv, cfg, violations, stats, samples):
     req, meta = [], []
     zz = [l for l in al if l.startswith("A zz ")]
@@ -1064,11 +1130,28 @@ def replay(path):
             return 1
         print("replay: property holds on this case")
         return 0
+    if r.get("kind") == "convctx":
+        rows, merr = conv_matrix(wd, compiler, std, H.STD_PERIODS)
+        if rows is None:
+            print("replay: trait matrix does not build:", merr[-1500:])
+            return 1
+        viol = Violations()
+        check_matrix(rows, drv, " ".join(cfg), viol, {})
+        mine = [v for v in viol if v["rec"].get("target") == r.get("target") and v["rec"].get("context") == r.get("context")]
+        for v in (mine or list(viol))[:6]:
+            print(" -", v["what"])
+        if mine:
+            print(f"VIOLATION property={PROP} replay={path}")
+            return 1
+        print("replay: property holds on this case" + (" (other cells fail, see above)" if len(viol) else ""))
+        return 1 if len(viol) else 0
     if r.get("kind") in ("value", "pair", "conv"):
         unit = {"expr": r.get("unit", "au::Meters"), "pre": r.get("unit_pre", ""), "kind": "replay"}
         rep = r.get("rep", "i32") if r.get("rep") in H.REPS else "i32"
         ins = {"id": 0, "u": 0, "rep": rep}
-        files = H.write_harness(wd, [unit], [ins], H.STD_PERIODS, nchunks=1)
+        rows, _ = conv_matrix(wd, compiler, std, H.STD_PERIODS)
+        at, dt = accepted_targets(rows, H.STD_PERIODS) if rows is not None else (None, None)
+        files = H.write_harness(wd, [unit], [ins], H.STD_PERIODS, nchunks=1, arith_types=at, dur_targets=dt)
         exe, err = build_harness(wd, files, compiler, std, "rp", "-O0")
         if exe is None:
             print("replay: harness does not build:", err["output"][-1500:])
